@@ -39,7 +39,7 @@ MUST_REACH = ['photutils.profiles.core:ProfileBase._compute_mask',
               'photutils.profiles.curve_of_growth:CurveOfGrowth.calc_ee_at_radius',
               'photutils.profiles.curve_of_growth:CurveOfGrowth.calc_radius_at_ee']
 ANCHOR_FILES = ['profiles/core.py', 'profiles/radial_profile.py', 'profiles/curve_of_growth.py', 'aperture/core.py']
-MIN_NONTRIVIAL = {'quick': 3000, 'thorough': 60000}
+MIN_NONTRIVIAL = {'quick': 2000, 'thorough': 40000}
 ASSUMPTIONS = ['photutils.aperture.CircularAperture (to_mask, do_photometry, area_overlap) is the trusted base '
                'here; it is judged by C01/C02',
                'scipy PchipInterpolator is trusted; the round trip is demanded only at the sampled radii of the '
@@ -54,7 +54,7 @@ RT_HIST = 1e-12     # normalise / unnormalise rounding
 def plan(tier):
     if tier == 'thorough':
         return dict(shards=16, cases=30000, timeout=2400, budget_s=700)
-    return dict(shards=6, cases=1200, timeout=600, budget_s=70)
+    return dict(shards=6, cases=800, timeout=600, budget_s=65)
 
 
 def selftest():
@@ -68,6 +68,13 @@ def _gen(case):
     ny, nx = int(rng.integers(9, 46)), int(rng.integers(9, 46))
     if rng.random() < 0.7:
         ny, nx = min(ny, 31), min(nx, 31)
+    # generic axes: own stream seeded from the case rng, drawn independently of the generator class
+    ax = np.random.default_rng(int(rng.integers(0, 2 ** 62)))
+    axes = []
+    if ax.random() < 0.08:              # axis (iv): 1xN / Nx1 / strongly elongated images
+        a_, b_ = int(ax.choice([1, 1, 2, 3])), int(ax.integers(9, 46))
+        ny, nx = (a_, b_) if ax.random() < 0.5 else (b_, a_)
+        axes.append('shape_elongated')
     shape = (ny, nx)
     yy, xx = np.mgrid[0:ny, 0:nx]
     # centre
@@ -79,7 +86,8 @@ def _gen(case):
     elif rng.random() < 0.25:
         place = str(rng.choice(['edge', 'off']))
     if place == 'inside':
-        xc, yc = rng.uniform(2, nx - 3), rng.uniform(2, ny - 3)
+        xc = rng.uniform(2, nx - 3) if nx >= 6 else rng.uniform(-0.5, nx - 0.5)
+        yc = rng.uniform(2, ny - 3) if ny >= 6 else rng.uniform(-0.5, ny - 0.5)
     elif place == 'edge':
         xc = float(rng.choice([rng.uniform(-0.5, 1.5), rng.uniform(nx - 2.5, nx - 0.5)]))
         yc = rng.uniform(-0.5, ny - 0.5)
@@ -209,9 +217,79 @@ def _gen(case):
     unit = None
     if cls == 'units' or rng.random() < 0.1:
         unit = [u.Jy, u.adu, u.electron / u.s][int(rng.integers(0, 3))]
+    # ---- generic axes -------------------------------------------------------------------------------
+    # (i) magnitude: one overall scale for data and error (about 60 % of the cases stay at 1)
+    mag = 1.0
+    if ax.random() < 0.4:
+        mag = float(2.0 ** int(ax.integers(-60, 41))) if ax.random() < 0.5 else float(10.0 ** int(ax.integers(-20, 11)))
+        data = data * mag
+        if error is not None:
+            error = error * mag
+        axes.append('magnitude_not_1')
+        if mag <= 1e-9:
+            axes.append('magnitude_below_1e-9')
+        if mag >= 1e6:
+            axes.append('magnitude_above_1e6')
+    # (vi) degenerate: everything masked
+    if ax.random() < 0.02:
+        mask = np.ones(shape, bool)
+        axes.append('degenerate_all_masked')
+    # (iii) memory layout / dtype of the image arrays (the values are first rounded to the representation, so the
+    #       reference sees exactly the numbers the library is given)
+    layout = 'c'
+    if ax.random() < 0.2:
+        layout = str(ax.choice(['fortran', 'strided', 'bigendian', 'float32', 'int']))
+        if layout == 'float32':
+            # only the image is float32: a float32 *error* map is squared in float32 by the aperture code
+            # (relative 6e-8, observed 4.6e-8 against the float64 reference) -- representation dependence of
+            # aperture photometry is C02/C15's subject, not judged here
+            with np.errstate(all='ignore'):
+                d32 = data.astype('f4').astype(float)
+            if np.array_equal(np.isfinite(d32), np.isfinite(data)):
+                data = d32
+            else:
+                layout = 'fortran'
+        if layout == 'int':
+            if np.all(np.isfinite(data)) and float(np.max(np.abs(data))) < 2 ** 50 and float(np.max(np.abs(data))) >= 4:
+                data = np.round(data)
+            else:
+                layout = 'strided'
+        axes.append('layout_' + layout)
+    # (ii) call forms of xycen / radii / subpixels
+    forms = dict(xycen='tuple', radii='array', subpixels='int')
+    if ax.random() < 0.15:
+        forms['xycen'] = str(ax.choice(['list', 'array', 'numpy_scalars']))
+        forms['radii'] = str(ax.choice(['list', 'tuple', 'array']))
+        forms['subpixels'] = str(ax.choice(['int', 'numpy_int']))
+        if forms['subpixels'] == 'numpy_int' and method == 'subpixel':
+            # PixelAperture._translate_mask_mode tests isinstance(subpixels, int): a numpy integer is rejected with
+            # 'subpixels must be a strictly positive integer' (aperture code, C01/C02/C15's subject): counted only
+            forms['subpixels'] = 'int'
+            axes.append('callform_numpy_int_subpixels_not_used_rejected_by_aperture_code')
+        axes.append('callform_xycen_radii')
     return dict(shape=shape, xycen=(float(xc), float(yc)), place=place, kind=kind, data=data, radii=radii,
                 pclass=pclass, mask=mask, error=error, method=method, subpixels=subpixels, unit=unit,
-                nonfinite=bool(nonfinite))
+                nonfinite=bool(nonfinite), mag=mag, layout=layout, forms=forms, axes=axes)
+
+
+def _layout(arr, layout, is_data=False):
+    """A fresh array holding the same values in the requested memory layout / dtype."""
+    if arr is None:
+        return None
+    if layout == 'fortran':
+        return np.asfortranarray(arr.copy())
+    if layout == 'strided':
+        big = np.zeros((arr.shape[0] * 2 + 1, arr.shape[1] * 3 + 2), dtype=arr.dtype)
+        view = big[1::2, 2::3]
+        view[...] = arr
+        return view
+    if layout == 'bigendian' and arr.dtype.kind == 'f':
+        return arr.astype('>f8')
+    if layout == 'float32' and arr.dtype.kind == 'f':
+        return arr.astype('f4')
+    if layout == 'int' and is_data:
+        return arr.astype(np.int64)
+    return arr.copy()
 
 
 def _vals(x):
@@ -252,8 +330,14 @@ def _close(case, obs, exp, what, rtol=0.0, atol=0.0, mech=None):
 def _make(g, data_in, error_in, mask_in):
     from photutils.profiles import CurveOfGrowth, RadialProfile
     klass = RadialProfile if g['pclass'] == 'rp' else CurveOfGrowth
-    return klass(data_in, g['xycen'], g['radii'].copy(), error=error_in, mask=mask_in, method=g['method'],
-                 subpixels=g['subpixels'])
+    f = g['forms']
+    xy = g['xycen']
+    xy = {'tuple': xy, 'list': list(xy), 'array': np.array(xy),
+          'numpy_scalars': (np.float64(xy[0]), np.float64(xy[1]))}[f['xycen']]
+    rd = g['radii'].copy()
+    rd = {'array': rd, 'list': [float(v) for v in rd], 'tuple': tuple(float(v) for v in rd)}[f['radii']]
+    sp = np.int64(g['subpixels']) if f['subpixels'] == 'numpy_int' else g['subpixels']
+    return klass(data_in, xy, rd, error=error_in, mask=mask_in, method=g['method'], subpixels=sp)
 
 
 def run_case(case):
@@ -265,9 +349,9 @@ def run_case(case):
     mech = dict(cls=case.cls, profile=g['pclass'], method=g['method'], place=g['place'])
 
     def inputs():
-        d = data.copy()
-        e = None if error is None else error.copy()
-        m = None if mask is None else mask.copy()
+        d = _layout(data, g['layout'], is_data=True)
+        e = _layout(error, 'c' if g['layout'] == 'float32' else g['layout'])
+        m = _layout(mask, g['layout'])
         if unit is not None:
             d = d * unit
             e = None if e is None else e * unit
@@ -284,7 +368,12 @@ def run_case(case):
                        place=g['place'], data=g['kind'], nradii=int(radii.size), r0=float(radii[0]),
                        rmax=float(radii[-1]), masked=mask is not None, error=error is not None,
                        nonfinite=g['nonfinite'], method=g['method'], subpixels=g['subpixels'],
-                       unit=str(unit), history=hist)
+                       unit=str(unit), history=hist, magnitude=g['mag'], layout=g['layout'],
+                       forms=g['forms'], axes=g['axes'])
+    for a_ in g['axes']:
+        case.note('axis_' + a_)
+    if not g['axes']:
+        case.note('axis_none_plain_case')
     case.digest = core.arr_digest(data, error, mask, radii, np.array(g['xycen'])) + core.digest(
         [g['pclass'], g['method'], g['subpixels'], str(unit), hist])
 
